@@ -44,6 +44,25 @@ EdgeOK(cap, target, fit, window, seg, segOver, r) ==
         LET f == FrameOutcome(target, seg \o consumed) IN r.kind = f.kind /\ r.v = f.v
   /\ (endsZero /\ ~segOver /\ Len(seg) + Len(consumed) > cap) => r.kind = "OverFull"     \* OverflowReported
   /\ fit => r.kind # "OverFull"                                                          \* NoOverWhenFit
+\* The same obligations stated on what a caller can observe of one call - result kind, value, remainder, buffered bytes
+\* afterwards - without reference to the branches of the present implementation. Any accumulator that satisfies C08/C09
+\* passes, whichever call it chooses to report an overflow in and however much of an over-long segment it consumes per call.
+\* o = [kind, v, rem, buf]
+EdgeOKObs(cap, target, fit, window, seg, segOver, o) ==
+  /\ Len(o.rem) <= Len(window)
+  /\ LET consumed == SubSeq(window, 1, Len(window) - Len(o.rem))
+         endsZero == consumed # <<>> /\ consumed[Len(consumed)] = 0 IN
+     /\ consumed \o o.rem = window                                                          \* Conserve
+     /\ FirstZero(consumed) \in {0, Len(consumed)}                                          \* a call never passes a sentinel: one result per zero
+     /\ o.kind \in {"Consumed", "Success", "DeserError", "OverFull"}
+     /\ (o.kind = "Consumed") => (~endsZero /\ o.rem = <<>>)
+     /\ (o.kind \in {"Success", "DeserError"}) => endsZero
+     /\ endsZero => o.buf = <<>>                                                            \* InitAfterZero
+     /\ (endsZero /\ ~segOver /\ Len(seg) + Len(consumed) <= cap) =>                        \* FrameResult
+           LET f == FrameOutcome(target, seg \o consumed) IN o.kind = f.kind /\ (f.kind = "Success" => o.v = f.v)
+     /\ (endsZero /\ ~segOver /\ Len(seg) + Len(consumed) > cap) => o.kind = "OverFull"     \* OverflowReported
+     /\ fit => o.kind # "OverFull"                                                          \* NoOverWhenFit
+     /\ Len(o.buf) <= cap
 \* ghost update
 NextSeg(window, seg, segOver, r) ==
   LET consumed == SubSeq(window, 1, Len(window) - Len(r.rem))
